@@ -422,8 +422,41 @@ fn fmt_tag(out: &str) -> String {
     format!("fmt-?{}", out)
 }
 
+// A single-threaded executor: everything the reactive system spawns (effects, also the "isomorphic" ones) runs on this thread,
+// and only when the executor is polled.  The harness replays SEQUENTIAL behaviours; with a thread pool an effect of the library can
+// read a signal at the very moment the next step writes it, and reactive_graph (which takes its locks without blocking) then
+// reports a signal as "disposed" - a race of the harness' own making.
+mod st_exec {
+    use futures::executor::{LocalPool, LocalSpawner};
+    use futures::task::LocalSpawnExt;
+    use std::cell::RefCell;
+    thread_local! {
+        static POOL: RefCell<LocalPool> = RefCell::new(LocalPool::new());
+        static SPAWNER: LocalSpawner = POOL.with(|p| p.borrow().spawner());
+    }
+    pub struct SingleThread;
+    impl any_spawner::CustomExecutor for SingleThread {
+        fn spawn(&self, fut: any_spawner::PinnedFuture<()>) {
+            SPAWNER.with(|s| s.spawn_local(fut).expect("spawn"));
+        }
+        fn spawn_local(&self, fut: any_spawner::PinnedLocalFuture<()>) {
+            SPAWNER.with(|s| s.spawn_local(fut).expect("spawn_local"));
+        }
+        fn poll_local(&self) {
+            POOL.with(|p| {
+                if let Ok(mut p) = p.try_borrow_mut() {
+                    p.run_until_stalled();
+                }
+            });
+        }
+    }
+    pub fn init() {
+        let _ = any_spawner::Executor::init_custom_executor(SingleThread);
+    }
+}
+
 fn flush() {
-    futures::executor::block_on(any_spawner::Executor::tick());
+    // single-threaded executor (module st_exec): everything pending runs here, now
     any_spawner::Executor::poll_local();
 }
 
@@ -537,7 +570,7 @@ fn main() {
         }
     }
     std::panic::set_hook(Box::new(|_| {}));
-    let _ = any_spawner::Executor::init_futures_executor();
+    st_exec::init();
     let mut w = Out::create(&out, skip > 0);
     let txt = std::fs::read_to_string(&cases).expect("cases");
     for (n, line) in txt.lines().enumerate() {
